@@ -207,3 +207,55 @@ func VH_C20_New_identity() {
 	}
 	vReach("end")
 }
+
+// ---- stub set "servefs": the lock ghost and the snapshot ghost together (for running the real Raft.Serve) ----
+// Listed after snapfs and lockfs it overrides the callees both of them model, dispatching on whose file it is.
+
+//verif:stub servefs os.Remove vBRemove
+//verif:stub servefs os.RemoveAll vBRemove
+//verif:stub servefs os.Stat vBStat
+//verif:stub servefs (*os.File).Close vBClose
+//verif:stub servefs (*os.File).Name vBName
+//verif:stub servefs (*os.File).Write vBWrite
+
+func vIsLockName(name string) bool {
+	if _, ok := vLDir[name]; ok {
+		return true
+	}
+	n := len(name)
+	return n >= 5 && name[n-5:] == "/lock"
+}
+
+func vBRemove(name string) error {
+	if vIsLockName(name) {
+		return vLRemove(name)
+	}
+	return vOSRemove(name)
+}
+func vBStat(name string) (os.FileInfo, error) {
+	if g := vSLookup(name); g != nil {
+		return vOSStat(name)
+	}
+	if _, _, k := vNameInfo(name); k != 0 {
+		return vOSStat(name)
+	}
+	return vLStatDir(name)
+}
+func vBClose(f *os.File) error {
+	if _, ok := vLHandle[f]; ok {
+		return vLClose(f)
+	}
+	return vFileClose(f)
+}
+func vBName(f *os.File) string {
+	if n, ok := vLHandle[f]; ok {
+		return n
+	}
+	return vFileName(f)
+}
+func vBWrite(f *os.File, b []byte) (int, error) {
+	if _, ok := vLHandle[f]; ok {
+		return vLWrite(f, b)
+	}
+	return vFileWrite(f, b)
+}
